@@ -179,7 +179,13 @@ func (s *Sess) MergeObs(tmp string) error {
 	s.protoMuted = true
 	defer func() { s.protoMuted = false; s.ProtoEpoch(false) }()
 	s.guard(e, func() {
+		if os.Getenv("VERIF_FSLOG") != "" {
+			fmt.Fprintln(os.Stderr, "== merge begin")
+		}
 		err = s.DB.Merge()
+		if os.Getenv("VERIF_FSLOG") != "" {
+			fmt.Fprintln(os.Stderr, "== merge end", err)
+		}
 		e["err"] = err != nil
 		if err != nil {
 			e["msg"] = err.Error()
